@@ -129,7 +129,11 @@ def run(ctx):
                 "distinct_nontrivial": dres["nontrivial"] + cres["hpwl_improved_runs"],
                 "rule": "DO: random circuits (C01 generator with nets), legalized, then 1-8 random optimiser ops on DetailedPlacer (best-move calls with random "
                         "candidate lists; runSwaps/runInserts/runShifts/runReordering with window arguments in the range the parameter check and run() allow; "
-                        "runShiftsOnCells/runReorderingOnCells on random cell subsets); DP: Circuit::placeDetailed with callback, random accepted parameters. "
+                        "runShiftsOnCells/runReorderingOnCells on random cell subsets); 4 % of the DO cases have a total wirelength >= 2^31 with every "
+                        "coordinate inside |v| < 2^22 (600..1300 two-pin nets to fixed pads at x ~ +-3.9e6): half of them the random circuit, half a designed one "
+                        "(1..3 rows of 2..6 legal row-high cells, per cell nL nets to the left pad and nR to the right pad with (nL - nR) / width strictly "
+                        "decreasing along the row, so that the legalized order is the unique optimum of every window), and their op list starts with 1..3 "
+                        "reordering passes (nbRows 1..2, maxNbCells 2..4) and a runReorderingOnCells on 2..4 consecutive cells (counts in direct_drive); DP: Circuit::placeDetailed with callback, random accepted parameters. "
                         "non-trivial = some op changed the placement (DO) / the run improved the wirelength (DP); distinct = distinct case lines",
                 "direct_drive": do.summary(dres), "placeDetailed_runs": dc.summary(cres),
                 "known_F8_matches": known,
